@@ -305,14 +305,14 @@ Ltac inv_simple I := eapply ext_inv; [exact I | apply ext_same; auto].
 Theorem step_inv r w : Inv w -> Inv (snd (step r w)).
 Proof.
   intro I.
-  destruct r as [o e | o | o | o | n a | c | c | c ser | s att o script idx | o l | o a n | o v | o l src | p o | h e | h e | h o | h o | o x | h len | h len | k | k | o d | s | x | l m | l m | k i | k p rs | | a]; cbn [step].
+  destruct r as [o e | o | o | o | n a | c | c | c ser | s att o script idx | o l | o a n | o v | o l src | p o | h e | h e | h o | h o | o x | h len | h len | k | k | h o | h o' | o x | o d | s | x | l m | l m | k i | k p rs | | a]; cbn [step].
   - (* Deliver *)
     set (fire := match e with Nx _ => o_n (obs w o) | Er _ => o_e (obs w o) | Co => o_e (obs w o) && o_c (obs w o) end).
     set (w1 := match e with Nx _ => w | _ => if o_e (obs w o) then set_obs w o (set_slots (obs w o) false false false) else w end).
     assert (I1 : Inv w1).
     { subst w1. destruct e; auto; destruct (o_e (obs w o)); auto using inv_close. }
     destruct fire eqn:Fire; [| exact I1].
-    destruct (o_tgt (obs w o)) as [u | n port ser | o' | h | t |] eqn:Tg; cbn [snd]; auto.
+    destruct (o_tgt (obs w o)) as [u | n port ser | o' | o' | h | k | t |] eqn:Tg; cbn [snd]; auto.
     + (* user *)
       pose proof (inv_user_log w o u e I Tg Fire) as I2. cbn zeta in I2. fold w1 in I2.
       assert (G : forall creqs w3, Inv w3 ->
@@ -328,6 +328,7 @@ Proof.
       unfold alloc_obs in *. cbn [snd] in I3. apply G. exact I3.
     + (* handler *)
       destruct (handler _ _ _ _ _ _ _ _) as [st' acts]. cbn [snd]. now apply inv_set_nst.
+    + (* ref_count / replay feed *) destruct e; cbn [snd]; auto; destruct (k_kind (conns w1 k)); auto; inv_simple I1.
     + (* tap log *) inv_simple I1.
   - (* Unsub *) cbn [snd]. now apply inv_close.
   - (* RunTd *)
@@ -363,13 +364,10 @@ Proof.
     + (* PFromResult *) destruct r; exact I.
     + (* PHot *)
       destruct (sj_kind (subjs w h)); cbn [snd]; auto.
-      * destruct (sj_err (subjs w h)); [exact I |]. destruct (sj_last (subjs w h)); [| exact I].
-        unfold alloc_cell, alloc_obs; cbn [snd].
-        pose proof (inv_alloc_cell w I) as I2. unfold alloc_cell in I2; cbn [snd] in I2.
-        apply (inv_alloc _ (TForward o) I2 Logic.I).
+      * destruct (sj_err (subjs w h)); [exact I |]. destruct (sj_last (subjs w h)); exact I.
       * unfold alloc_cell, alloc_obs; cbn [snd].
         pose proof (inv_alloc_cell w I) as I2. unfold alloc_cell in I2; cbn [snd] in I2.
-        apply (inv_alloc _ (TForward o) I2 Logic.I).
+        apply (inv_alloc _ (TGated o) I2 Logic.I).
     + (* POp *)
       assert (G : forall l, Inv (snd (@pair (list req) world l w))) by (intro; exact I).
       destruct op; try apply G.
@@ -390,7 +388,10 @@ Proof.
         unfold alloc_subj in I4; cbn [snd] in I4. exact I4.
       * (* OTap *) unfold alloc_obs; cbn [snd]. apply inv_set_node.
         apply (inv_alloc _ (TTapLog t) (inv_set_ctl _ (n_ctls w) {| c_sub := o; c_uns := entries; c_serial := length entries |} I3) Logic.I).
-  - (* SubjCall *) cbn [snd]. now apply inv_set_subj.
+  - (* SubjCall *)
+    destruct (match sj_kind (subjs w h) with KBehavior | KReplay => conflicts (held w) (LHist h) MW | _ => false end); cbn [snd].
+    + inv_simple I.
+    + now apply inv_set_subj.
   - (* Broadcast *) destruct e; cbn [snd]; auto using inv_set_subj.
   - (* SubjJoin *) cbn [snd]. apply inv_set_subj. now apply inv_settd.
   - (* Replay *) exact I.
@@ -399,8 +400,19 @@ Proof.
   - (* HookUnsub *) destruct (sj_hook _); [destruct (Nat.eqb _ _) |]; exact I.
   - (* Connect *)
     destruct (k_slot (conns w k)); [exact I |]. unfold alloc_obs; cbn [snd].
-    apply (inv_alloc w (TFeed (k_subj (conns w k))) I Logic.I).
-  - (* SlotUnsub *) exact I.
+    apply (inv_alloc w (TFeedK k) I Logic.I).
+  - (* SlotUnsub *) destruct (k_slot (conns w k)); cbn [snd]; [| exact I]. destruct (match k_kind (conns w k) with CReplay => _ | _ => false end); cbn [snd]; [exact I | inv_simple I].
+  - (* BehaviorJoin *)
+    destruct (is_sub (obs w o)); [| exact I].
+    unfold alloc_cell, alloc_obs; cbn [snd].
+    pose proof (inv_alloc_cell w I) as I2. unfold alloc_cell in I2; cbn [snd] in I2.
+    apply (inv_alloc _ (TForward o) I2 Logic.I).
+  - (* ReplayDone *)
+    destruct (sj_err (subjs w h)); [exact I |]. destruct (sj_done (subjs w h)); [exact I |]. cbn [snd].
+    destruct (o_tgt (obs w o')) eqn:Tg; try exact I.
+    eapply ext_inv; [exact I |]. apply ext_set_obs; [exact I |]. right. split; [exact Logic.I |].
+    destruct (i_unif _ I o') as [A B]. split; cbn; assumption.
+  - (* CellCheck *) destruct (is_sub (obs w o)); exact I.
   - (* MkSub *)
     cbn [snd].
     assert (I1 : Inv (w_n_subs (S (n_subs w)) (w_subs (upd (subs w) (n_subs w) {| sb_obs := o; sb_live := true |}) w))) by inv_simple I.
